@@ -30,12 +30,21 @@ func genPIP10Scenario(t *rapid.T, st *Stats) (*Scenario, pip10Info) {
 	start := uint32(144*k + rapid.IntRange(1, 100).Draw(t, "off"))
 	era := ModernEra(start)
 	era.PIP10 = start
-	era.AvgPeriod = uint64(rapid.IntRange(3, 8).Draw(t, "period"))
-	era.AvgRequired = era.AvgPeriod / 2
-	w := NewWorld(t, era, 40)
-	miners := w.Actors[:30]
 	n := rapid.IntRange(14, 30).Draw(t, "nblocks")
 	gapsAllowed := !Open("C09/avg-window")
+	if rapid.Bool().Draw(t, "longWindow") {
+		// a window longer than the whole chain: the averaging window never slides past the first
+		// rated height, so reload-by-height and maintain-by-count coincide and ungraded heights
+		// are allowed everywhere (the registered finding needs the window to have moved on)
+		era.AvgPeriod = uint64(n + 12)
+		era.AvgRequired = uint64(rapid.IntRange(2, 4).Draw(t, "required"))
+		gapsAllowed = true
+	} else {
+		era.AvgPeriod = uint64(rapid.IntRange(3, 8).Draw(t, "period"))
+		era.AvgRequired = era.AvgPeriod / 2
+	}
+	w := NewWorld(t, era, 40)
+	miners := w.Actors[:30]
 	for i := 0; i < n; i++ {
 		b := &Block{}
 		graded := true
